@@ -583,6 +583,13 @@ class Manager:
         # TODO: Refactor this method.
 
         if event.cancelled:
+            # A cancelled event that is tracked as an effect of another
+            # event will never be done: release its cause now, or the
+            # complete event of the cause is never fired.
+            cause = getattr(event, 'cause', None)
+            if cause is not None and cause is not event:
+                del event.cause, event.effects
+                self._effectDone(cause)
             return
 
         if event.complete:
@@ -694,6 +701,9 @@ class Manager:
             channels = getattr(event, 'success_channels', event.channels)
             self.fire(event.child('success', event, event.value.value), *channels)
 
+        self._effectDone(event)
+
+    def _effectDone(self, event):
         while True:
             # cause attributes indicates interest in completion event
             cause = getattr(event, 'cause', None)
